@@ -13,6 +13,7 @@ import (
 	"strings"
 
 	"github.com/getkin/kin-openapi/openapi3"
+	"github.com/getkin/kin-openapi/openapi3filter"
 	yaml "github.com/oasdiff/yaml"
 
 	"verif/internal/core"
@@ -589,6 +590,8 @@ func c11Strace(c *core.Ctx) {
 		{"absolute", map[string]string{"A": canaryAbs + "#/components/schemas/T"}, []string{"elsewhere/canary-abs.json"}},
 		{"file-url", map[string]string{"A": "file://" + canaryAbs + "#/components/schemas/T"}, []string{"elsewhere/canary-abs.json"}},
 		{"http", map[string]string{"A": "http://127.0.0.1:9/x.json#/components/schemas/T"}, nil},
+		// a scheme-relative reference names another host: the local file of the same path is not that location
+		{"scheme-relative", map[string]string{"A": "//files.invalid" + canaryAbs + "#/components/schemas/T"}, nil},
 		{"internal-only", map[string]string{"A": "#/components/schemas/B"}, nil},
 	}
 	for _, cs := range cases {
@@ -600,13 +603,14 @@ func c11Strace(c *core.Ctx) {
 		// fields that are not references but name files
 		dig(root, "components", "schemas")["Pet"] = gen.S{"oneOf": gen.Arr(gen.S{"$ref": "#/components/schemas/B"}), "discriminator": gen.S{"propertyName": "k", "mapping": gen.S{"a": "unreferenced.json#/components/schemas/T"}}}
 		rootFile := write("tree/root-"+cs.name+".json", mustJSON(root))
-		for _, allowed := range []bool{false, true} {
-			logf := filepath.Join(dir, fmt.Sprintf("strace-%s-%v.log", cs.name, allowed))
-			cmd := exec.Command("strace", "-f", "-e", "trace=openat,connect", "-o", logf, exe, "__load", rootFile, fmt.Sprint(allowed))
+		for _, mode := range []string{"false", "true", "handler"} {
+			allowed := mode == "true"
+			logf := filepath.Join(dir, fmt.Sprintf("strace-%s-%v.log", cs.name, mode))
+			cmd := exec.Command("strace", "-f", "-e", "trace=openat,connect", "-o", logf, exe, "__load", rootFile, mode)
 			cmd.Dir = filepath.Join(dir, "tree")
 			out, _ := cmd.CombinedOutput()
 			b, err := os.ReadFile(logf)
-			desc := fmt.Sprintf("strace case=%s allowed=%v", cs.name, allowed)
+			desc := fmt.Sprintf("strace case=%s allowed=%v entry=%s", cs.name, allowed, map[bool]string{false: "Loader.LoadFromFile", true: "ValidationHandler.Load"}[mode == "handler"])
 			c.Begin(desc)
 			c.Eval()
 			if err != nil || len(b) == 0 {
@@ -680,9 +684,16 @@ func keysOf(m map[string]bool) []string {
 }
 
 // LoadForStrace is the body of the child process used by the strace pass.
-func LoadForStrace(file string, allowed bool) {
+func LoadForStrace(file string, mode string) {
+	if mode == "handler" {
+		// another load entry point: it takes a file name and has no switch, so the default (disallowed) applies
+		h := &openapi3filter.ValidationHandler{File: file}
+		err := h.Load()
+		fmt.Printf("handler loaded err=%v\n", err)
+		return
+	}
 	l := openapi3.NewLoader()
-	l.IsExternalRefsAllowed = allowed
+	l.IsExternalRefsAllowed = mode == "true"
 	d, err := l.LoadFromFile(file)
 	fmt.Printf("loaded=%v err=%v\n", d != nil, err)
 }
